@@ -5,6 +5,7 @@ verus! {
 
 //@include shim/std_gaps.rs
 //@include shim/compact_encoding.rs
+//@include shim/flat_tree.rs
 pub use compact_encoding::*;
 broadcast use vp_std::group_std_gaps, compact_encoding::lemma_prefix_concat, compact_encoding::lemma_strict_prefix_concat, compact_encoding::lemma_enc_uint_len;
 
@@ -21,6 +22,7 @@ impl CompactEncoding for RequestBlock {
     open spec fn dec_enc(d: Self) -> Seq<u8> { u64::dec_enc(d.index) + u64::dec_enc(d.nodes) }
     open spec fn enc_ok(&self) -> bool { true }
     open spec fn dec_ok(d: Self) -> bool { true }
+    open spec fn eqv(a: Self, b: Self) -> bool { a == b }
     /*@ fn src/encoding.rs CompactEncoding for RequestBlock::encoded_size ; novis
     tags: C11
     @*/
@@ -37,6 +39,7 @@ impl CompactEncoding for RequestSeek {
     open spec fn dec_enc(d: Self) -> Seq<u8> { u64::dec_enc(d.bytes) }
     open spec fn enc_ok(&self) -> bool { true }
     open spec fn dec_ok(d: Self) -> bool { true }
+    open spec fn eqv(a: Self, b: Self) -> bool { a == b }
     /*@ fn src/encoding.rs CompactEncoding for RequestSeek::encoded_size ; novis
     tags: C11
     @*/
@@ -53,6 +56,7 @@ impl CompactEncoding for RequestUpgrade {
     open spec fn dec_enc(d: Self) -> Seq<u8> { u64::dec_enc(d.start) + u64::dec_enc(d.length) }
     open spec fn enc_ok(&self) -> bool { true }
     open spec fn dec_ok(d: Self) -> bool { true }
+    open spec fn eqv(a: Self, b: Self) -> bool { a == b }
     /*@ fn src/encoding.rs CompactEncoding for RequestUpgrade::encoded_size ; novis
     tags: C11
     @*/
@@ -60,6 +64,153 @@ impl CompactEncoding for RequestUpgrade {
     tags: C11
     @*/
     /*@ fn src/encoding.rs CompactEncoding for RequestUpgrade::decode ; novis
+    tags: C11
+    @*/
+}
+
+// ---------------- Node (src/common/node.rs) ----------------
+/*@ item src/common/node.rs struct Node @*/
+pub open spec fn all_zero(s: Seq<u8>) -> bool { forall|i: int| 0 <= i < s.len() ==> s[i] == 0u8 }
+impl Node {
+    /// what Node::new produces: derived fields are functions of (index, hash)
+    pub open spec fn canonical(&self) -> bool {
+        &&& self.parent == flat_tree::spec_parent(self.index)
+        &&& self.data is Some && self.data->Some_0@.len() == 0
+        &&& self.blank == all_zero(self.hash@)
+    }
+    /*@ fn src/common/node.rs Node::new
+    tags: C11 C05 C04 C03 C01
+    result: r
+    ensures:
+        r.index == index, r.hash@ == hash@, r.length == length, r.canonical()
+    sub `for byte in &hash \{` => `for byte in it: hash.iter() {`
+    loop 1:
+        invariant_except_break
+            blank,
+            forall|i: int| 0 <= i < it.index@ ==> hash@[i] == 0u8
+        ensures
+            blank == all_zero(hash@)
+    after `blank = false;`:
+        assert(hash@[it.index@ as int] != 0u8);
+    @*/
+}
+impl CompactEncoding for Node {
+    open spec fn spec_enc(&self) -> Seq<u8> { Self::dec_enc(*self) }
+    open spec fn dec_enc(d: Self) -> Seq<u8> { u64::dec_enc(d.index) + u64::dec_enc(d.length) + d.hash@ }
+    open spec fn enc_ok(&self) -> bool { self.hash@.len() == 32 }
+    open spec fn dec_ok(d: Self) -> bool { d.hash@.len() == 32 && d.canonical() }
+    open spec fn eqv(a: Self, b: Self) -> bool { a.index == b.index && a.length == b.length && a.hash@ =~= b.hash@ && a.parent == b.parent && a.blank == b.blank && a.data is Some == b.data is Some && (a.data is Some ==> a.data->Some_0@ =~= b.data->Some_0@) }
+    /*@ fn src/encoding.rs CompactEncoding for Node::encoded_size ; novis
+    tags: C11
+    result: r
+    ensures:
+        r is Ok ==> r->Ok_0 <= 50
+    @*/
+    /*@ fn src/encoding.rs CompactEncoding for Node::encode ; novis
+    tags: C11
+    @*/
+    /*@ fn src/encoding.rs CompactEncoding for Node::decode ; novis
+    tags: C11
+    last:
+        proof {
+            assert forall|d: Node| Self::dec_ok(d) && (#[trigger] Self::dec_enc(d)).is_prefix_of(buffer@) implies
+                index == d.index && length == d.length && hash@ == d.hash@ by {
+                let a = u64::dec_enc(d.index); let b = u64::dec_enc(d.length);
+                assert((a + b).is_prefix_of(buffer@));
+                assert(d.hash@.is_prefix_of(buffer@.skip((a + b).len() as int)));
+                assert(d.hash@ =~= buffer@.skip((a + b).len() as int).subrange(0, 32));
+            }
+        }
+    @*/
+}
+
+impl VecEncodable for Node {
+    /*@ fn src/encoding.rs VecEncodable for Node::vec_encoded_size ; novis
+    tags: C11
+    sub `for x in vec \{` => `for x in it: vec.iter() {`
+    loop 1:
+        invariant
+            out <= 9 + it.index@ * 50,
+            vec@.len() <= SIZE_BOUND,
+            all_enc_ok(vec@) ==> out == enc_uint(vec@.len() as u64).len() + enc_seq(vec@.subrange(0, it.index@ as int)).len()
+    before `out += x.encoded_size()?;`:
+        proof {
+            lemma_enc_seq_push(vec@.subrange(0, it.index@ as int), *x);
+            assert(vec@.subrange(0, it.index@ + 1) =~= vec@.subrange(0, it.index@ as int).push(*x));
+        }
+    last:
+        assert(vec@.subrange(0, vec@.len() as int) =~= vec@);
+    @*/
+}
+
+/*@ item src/common/peer.rs struct DataBlock @*/
+impl CompactEncoding for DataBlock {
+    open spec fn spec_enc(&self) -> Seq<u8> { Self::dec_enc(*self) }
+    open spec fn dec_enc(d: Self) -> Seq<u8> { <u64>::dec_enc(d.index) + <Vec<u8>>::dec_enc(d.value) + <Vec<Node>>::dec_enc(d.nodes) }
+    open spec fn enc_ok(&self) -> bool { self.index.enc_ok() && self.value.enc_ok() && self.nodes.enc_ok() }
+    open spec fn dec_ok(d: Self) -> bool { <u64>::dec_ok(d.index) && <Vec<u8>>::dec_ok(d.value) && <Vec<Node>>::dec_ok(d.nodes) }
+    open spec fn eqv(a: Self, b: Self) -> bool { <u64>::eqv(a.index, b.index) && <Vec<u8>>::eqv(a.value, b.value) && <Vec<Node>>::eqv(a.nodes, b.nodes) }
+    /*@ fn src/encoding.rs CompactEncoding for DataBlock::encoded_size ; novis
+    tags: C11
+    @*/
+    /*@ fn src/encoding.rs CompactEncoding for DataBlock::encode ; novis
+    tags: C11
+    @*/
+    /*@ fn src/encoding.rs CompactEncoding for DataBlock::decode ; novis
+    tags: C11
+    @*/
+}
+
+/*@ item src/common/peer.rs struct DataHash @*/
+impl CompactEncoding for DataHash {
+    open spec fn spec_enc(&self) -> Seq<u8> { Self::dec_enc(*self) }
+    open spec fn dec_enc(d: Self) -> Seq<u8> { <u64>::dec_enc(d.index) + <Vec<Node>>::dec_enc(d.nodes) }
+    open spec fn enc_ok(&self) -> bool { self.index.enc_ok() && self.nodes.enc_ok() }
+    open spec fn dec_ok(d: Self) -> bool { <u64>::dec_ok(d.index) && <Vec<Node>>::dec_ok(d.nodes) }
+    open spec fn eqv(a: Self, b: Self) -> bool { <u64>::eqv(a.index, b.index) && <Vec<Node>>::eqv(a.nodes, b.nodes) }
+    /*@ fn src/encoding.rs CompactEncoding for DataHash::encoded_size ; novis
+    tags: C11
+    @*/
+    /*@ fn src/encoding.rs CompactEncoding for DataHash::encode ; novis
+    tags: C11
+    @*/
+    /*@ fn src/encoding.rs CompactEncoding for DataHash::decode ; novis
+    tags: C11
+    @*/
+}
+
+/*@ item src/common/peer.rs struct DataSeek @*/
+impl CompactEncoding for DataSeek {
+    open spec fn spec_enc(&self) -> Seq<u8> { Self::dec_enc(*self) }
+    open spec fn dec_enc(d: Self) -> Seq<u8> { <u64>::dec_enc(d.bytes) + <Vec<Node>>::dec_enc(d.nodes) }
+    open spec fn enc_ok(&self) -> bool { self.bytes.enc_ok() && self.nodes.enc_ok() }
+    open spec fn dec_ok(d: Self) -> bool { <u64>::dec_ok(d.bytes) && <Vec<Node>>::dec_ok(d.nodes) }
+    open spec fn eqv(a: Self, b: Self) -> bool { <u64>::eqv(a.bytes, b.bytes) && <Vec<Node>>::eqv(a.nodes, b.nodes) }
+    /*@ fn src/encoding.rs CompactEncoding for DataSeek::encoded_size ; novis
+    tags: C11
+    @*/
+    /*@ fn src/encoding.rs CompactEncoding for DataSeek::encode ; novis
+    tags: C11
+    @*/
+    /*@ fn src/encoding.rs CompactEncoding for DataSeek::decode ; novis
+    tags: C11
+    @*/
+}
+
+/*@ item src/common/peer.rs struct DataUpgrade @*/
+impl CompactEncoding for DataUpgrade {
+    open spec fn spec_enc(&self) -> Seq<u8> { Self::dec_enc(*self) }
+    open spec fn dec_enc(d: Self) -> Seq<u8> { <u64>::dec_enc(d.start) + <u64>::dec_enc(d.length) + <Vec<Node>>::dec_enc(d.nodes) + <Vec<Node>>::dec_enc(d.additional_nodes) + <Vec<u8>>::dec_enc(d.signature) }
+    open spec fn enc_ok(&self) -> bool { self.start.enc_ok() && self.length.enc_ok() && self.nodes.enc_ok() && self.additional_nodes.enc_ok() && self.signature.enc_ok() }
+    open spec fn dec_ok(d: Self) -> bool { <u64>::dec_ok(d.start) && <u64>::dec_ok(d.length) && <Vec<Node>>::dec_ok(d.nodes) && <Vec<Node>>::dec_ok(d.additional_nodes) && <Vec<u8>>::dec_ok(d.signature) }
+    open spec fn eqv(a: Self, b: Self) -> bool { <u64>::eqv(a.start, b.start) && <u64>::eqv(a.length, b.length) && <Vec<Node>>::eqv(a.nodes, b.nodes) && <Vec<Node>>::eqv(a.additional_nodes, b.additional_nodes) && <Vec<u8>>::eqv(a.signature, b.signature) }
+    /*@ fn src/encoding.rs CompactEncoding for DataUpgrade::encoded_size ; novis
+    tags: C11
+    @*/
+    /*@ fn src/encoding.rs CompactEncoding for DataUpgrade::encode ; novis
+    tags: C11
+    @*/
+    /*@ fn src/encoding.rs CompactEncoding for DataUpgrade::decode ; novis
     tags: C11
     @*/
 }
